@@ -101,6 +101,11 @@ func (fw *CPTVFileRecorder) StartRecording(background *cptvframe.Frame, tempThre
 		leptondController.SetAutoFFC(false)
 	}
 	filename := filepath.Join(fw.outputDir, newRecordingTempName())
+	for fileExists(filename) || fileExists(recordingFinalName(filename)) {
+		// names have millisecond resolution: don't reuse the name of another recording
+		time.Sleep(time.Millisecond)
+		filename = filepath.Join(fw.outputDir, newRecordingTempName())
+	}
 	if fw.constantRecorder {
 		log.Printf("constant recording started: %s", filename)
 	} else {
@@ -153,6 +158,11 @@ func (fw *CPTVFileRecorder) Stop() {
 
 func (fw *CPTVFileRecorder) WriteFrame(frame *cptvframe.Frame) error {
 	return fw.writer.WriteFrame(frame)
+}
+
+func fileExists(filename string) bool {
+	_, err := os.Stat(filename)
+	return err == nil
 }
 
 func newRecordingTempName() string {
